@@ -170,10 +170,10 @@ def layout_rows():
             p = l.split()
             if p and p[0] == 'ROW':
                 i = p.index('|'); n = p[1:i]; offs = p[i + 1:]
-                if len(n) != 15: continue
-                cfg, kind, c, r, ts, ta, isf, al, q, so, ao, vp, ln, lt, aux = n
-                items.append('  ⟨%s, %s, %s, %s, %s, %s, %s, %s, %s, %s, %s, %s, %s, %s, %s, [%s]⟩' % (
-                    cfg, kind, c, r, ts, ta, 'true' if isf == '1' else 'false', 'true' if al == '1' else 'false', q, so, ao, vp, ln, lt, aux, ', '.join(offs)))
+                if len(n) != 16: continue
+                cfg, kind, c, r, ts, ta, isf, al, q, so, ao, vp, cvp, ln, lt, aux = n
+                items.append('  ⟨%s, %s, %s, %s, %s, %s, %s, %s, %s, %s, %s, %s, %s, %s, %s, %s, [%s]⟩' % (
+                    cfg, kind, c, r, ts, ta, 'true' if isf == '1' else 'false', 'true' if al == '1' else 'false', q, so, ao, vp, cvp, ln, lt, aux, ', '.join(offs)))
             elif p and p[0] == 'FAIL': fails += 1
     # one generated module per configuration, so that lake checks the table in parallel
     bycfg = {}
